@@ -64,6 +64,33 @@ pub fn programs(thorough: bool, seed: u64) -> Vec<Program> {
         ];
         if k == 0 || thorough {
             fam.push(("bool-patterns".into(), gen::bool_patterns(ty)));
+            fam.push(("inlist-patterns".into(), gen::inlist_patterns(ty)));
+        }
+        // systematic guarantees: every expression of guarantee_exprs under every kind of guarantee
+        {
+            let (tlo, thi) = ty.min_max();
+            let mut ivs: Vec<(Option<i128>, Option<i128>)> = vec![(Some(1), Some(3)), (Some(2), Some(2)), (None, Some(0)), (Some(0), None), (None, None)];
+            if thorough {
+                ivs.extend([(Some(tlo), Some(tlo)), (Some(thi), Some(thi)), (Some(tlo), Some(thi)), (Some(thi - 1), None)]);
+            }
+            for (lo, hi) in ivs {
+                let mut xs = gen::guarantee_exprs(ty, lo.unwrap_or(1), hi.unwrap_or(3));
+                if !thorough {
+                    rng.shuffle(&mut xs);
+                    xs.truncate(30);
+                }
+                for x in xs {
+                    for kind in 0..3u8 {
+                        out.push(Program {
+                            family: format!("guarantees-systematic/{ty}"),
+                            x: x.clone(),
+                            cols: cols.clone(),
+                            guarantees: vec![Guar { col: "a".into(), ty: ty.clone(), kind, lo, hi }],
+                            canonicalize: false,
+                        });
+                    }
+                }
+            }
         }
         for (name, xs) in fam {
             let mut xs = xs;
@@ -77,7 +104,7 @@ pub fn programs(thorough: bool, seed: u64) -> Vec<Program> {
             }
         }
         // random deeper expressions
-        let n_rand = if thorough { 6000 } else { 500 };
+        let n_rand = if thorough { 6000 } else { 360 };
         let mut g = Gen::new(seed.wrapping_add(k as u64 * 7919), ty.clone());
         for j in 0..n_rand {
             let depth = 2 + (j % 3) as u32;
@@ -86,7 +113,7 @@ pub fn programs(thorough: bool, seed: u64) -> Vec<Program> {
         }
         // guarantees: boundary intervals on column a
         let vals = gen::lit_values(ty);
-        let n_g = if thorough { 1500 } else { 250 };
+        let n_g = if thorough { 1500 } else { 180 };
         for j in 0..n_g {
             let x = g.bool_expr(1 + (j % 2) as u32);
             let kind = (g.rng.below(3)) as u8;
@@ -131,12 +158,39 @@ pub fn programs(thorough: bool, seed: u64) -> Vec<Program> {
             (gen::i(16, true), Ty::Dec { p: 10, s: 2 }),
         ]
     };
+    let mut pairs = pairs;
+    // temporal and decimal conversions
+    pairs.extend([
+        (Ty::Ts(0), Ty::Ts(3)),
+        (Ty::Ts(3), Ty::Ts(1)),
+        (Ty::Ts(1), Ty::Ts(2)),
+        (Ty::Date32, Ty::Date64),
+        (Ty::Date32, Ty::Ts(1)),
+        (Ty::Dec { p: 10, s: 2 }, gen::i(32, true)),
+        (Ty::Dec { p: 10, s: 2 }, gen::i(64, true)),
+        (Ty::Dec { p: 10, s: 2 }, Ty::Dec { p: 12, s: 4 }),
+        (Ty::Dec { p: 10, s: 2 }, Ty::Dec { p: 10, s: 0 }),
+    ]);
+    if thorough {
+        pairs.extend([
+            (Ty::Ts(2), Ty::Ts(0)),
+            (Ty::Ts(0), Ty::Ts(1)),
+            (Ty::Ts(3), Ty::Ts(0)),
+            (Ty::Date32, Ty::Ts(3)),
+            (Ty::Date32, Ty::Ts(0)),
+            (Ty::Dec { p: 5, s: 0 }, gen::i(16, true)),
+            (Ty::Dec { p: 18, s: 2 }, gen::i(64, true)),
+            (Ty::Dec { p: 20, s: 4 }, Ty::Dec { p: 38, s: 10 }),
+        ]);
+    }
     for (from, to) in pairs {
         let cols = vec![("a".to_string(), from.clone(), true)];
         let mut xs = gen::cast_compare(&from, &to);
-        if !thorough && xs.len() > 220 {
+        // quick tier: a seeded slice; conversions that need wide multipliers in the solver get a smaller one
+        let cap = if from.is_int() && to.is_int() { 200 } else { 110 };
+        if !thorough && xs.len() > cap {
             rng.shuffle(&mut xs);
-            xs.truncate(220);
+            xs.truncate(cap);
         }
         for x in xs {
             out.push(Program { family: format!("cast-compare/{from}->{to}"), x, cols: cols.clone(), guarantees: vec![], canonicalize: false });
@@ -212,6 +266,7 @@ pub struct Tally {
     pub violations: Vec<Value>,
     pub samples: Vec<Value>,
     pub families: BTreeMap<String, (u64, u64)>,
+    pub fam_secs: BTreeMap<String, f64>,
     pub distinct_rewrites: std::collections::HashSet<String>,
     pub phys_programs: u64,
     pub phys_changed: u64,
@@ -233,6 +288,7 @@ impl Tally {
             violations: vec![],
             samples: vec![],
             families: BTreeMap::new(),
+            fam_secs: BTreeMap::new(),
             distinct_rewrites: Default::default(),
             phys_programs: 0,
             phys_changed: 0,
@@ -253,6 +309,9 @@ impl Tally {
         self.inconclusive.extend(o.inconclusive);
         self.violations.extend(o.violations);
         self.samples.extend(o.samples);
+        for (k, v) in o.fam_secs {
+            *self.fam_secs.entry(k).or_insert(0.0) += v;
+        }
         for (k, v) in o.families {
             let e = self.families.entry(k).or_insert((0, 0));
             e.0 += v.0;
@@ -267,6 +326,13 @@ impl Tally {
 
 /// abstract numeric literals and comparison operators: the "shape" of a rewrite, used as the
 /// signature of a finding so that other violations of the same property are still reported
+/// exactly one of the two replayed values is NULL (and neither is an error)
+fn null_mismatch(v: &Value) -> bool {
+    let o = v["original_value"].as_str().unwrap_or("");
+    let r = v["rewritten_value"].as_str().unwrap_or("");
+    !o.starts_with("ERROR") && !r.starts_with("ERROR") && !o.is_empty() && !r.is_empty() && (o.contains("NULL") != r.contains("NULL"))
+}
+
 fn any_node(x: &X, f: &dyn Fn(&X) -> bool) -> bool {
     if f(x) {
         return true;
@@ -288,7 +354,7 @@ fn any_node(x: &X, f: &dyn Fn(&X) -> bool) -> bool {
 /// Signature of a violation.  Two recorded findings are recognised by the trigger in the ORIGINAL
 /// expression (the exact precondition of the defective rewrite); everything else is keyed by the
 /// literal-abstracted shape of the rewrite, so that a different violation is still reported.
-pub fn signature(xo: Option<&X>, xs: Option<&X>, orig: &str, simp: &str) -> String {
+pub fn signature(xo: Option<&X>, xs: Option<&X>, orig: &str, simp: &str, null_vs_bool: bool) -> String {
     if let (Some(xo), Some(xs)) = (xo, xs) {
         // -(x & y), -(x | y): distribute_negation treats arithmetic negation as bitwise NOT
         if any_node(xo, &|n| matches!(n, X::Neg(e) if matches!(e.as_ref(), X::Bin { op: BinOp::BitAnd | BinOp::BitOr, .. }))) {
@@ -306,6 +372,41 @@ pub fn signature(xo: Option<&X>, xs: Option<&X>, orig: &str, simp: &str) -> Stri
         let has_try = |x: &X| any_node(x, &|n| matches!(n, X::Cast { try_: true, .. }));
         if any_node(xo, &fallible_try_cast) && !has_try(xs) {
             return "try_cast-unwrapped-in-comparison/fallible-integer-narrowing".into();
+        }
+        let has_cast = |x: &X| any_node(x, &|n| matches!(n, X::Cast { .. }));
+        // CAST / TRY_CAST of a decimal column to an integer or to fewer fractional digits is many-to-one,
+        // yet unwrap_cast moves the cast to the literal
+        let lossy_decimal = |n: &X| match n {
+            X::Cast { e, to, .. } => match (e.ty(), to) {
+                (Ty::Dec { .. }, Ty::Int { .. }) => true,
+                (Ty::Dec { s: s1, .. }, Ty::Dec { s: s2, .. }) => *s2 < s1,
+                _ => false,
+            },
+            _ => false,
+        };
+        if any_node(xo, &lossy_decimal) && !has_cast(xs) {
+            return "cast-unwrapped-in-comparison/lossy-decimal-cast".into();
+        }
+        // CAST / TRY_CAST of a timestamp column to a finer unit: the literal is truncated to the column's
+        // unit (documented in casts.rs), and TRY_CAST's overflow-to-NULL is lost
+        let ts_finer = |n: &X| match n {
+            X::Cast { e, to: Ty::Ts(u2), .. } => matches!(e.ty(), Ty::Ts(u1) if u1 < *u2),
+            _ => false,
+        };
+        if any_node(xo, &ts_finer) && !has_cast(xs) {
+            return "cast-unwrapped-in-comparison/timestamp-to-finer-unit".into();
+        }
+        // AND / OR of two IN lists over the same expression is folded by set algebra on the items, which
+        // ignores that the result is NULL (not FALSE / TRUE) when the expression or an item is NULL
+        let inlist_pair = |n: &X| match n {
+            X::Bin { op: BinOp::And | BinOp::Or, l, r } => match (l.as_ref(), r.as_ref()) {
+                (X::InList { e: e1, .. }, X::InList { e: e2, .. }) => e1 == e2,
+                _ => false,
+            },
+            _ => false,
+        };
+        if null_vs_bool && any_node(xo, &inlist_pair) {
+            return "inlist-set-algebra/null-result-folded-to-boolean".into();
         }
     }
     format!("{} => {}", shape(orig), shape(simp))
@@ -426,7 +527,8 @@ pub fn run_one(duo: &mut Duo, p: &Program, t: &mut Tally) {
             v["guarantees"] = json!(gdesc);
             let xo = lx::expr_to_x(&coerced, &schema).ok();
             let xs = lx::expr_to_x(&simplified, &schema).ok();
-            v["signature"] = json!(signature(xo.as_ref(), xs.as_ref(), &coerced.to_string(), &simplified.to_string()));
+            let nvb = null_mismatch(&v);
+            v["signature"] = json!(signature(xo.as_ref(), xs.as_ref(), &coerced.to_string(), &simplified.to_string(), nvb));
             t.violations.push(v);
         }
     }
@@ -504,7 +606,8 @@ fn run_physical(duo: &mut Duo, p: &Program, coerced: &Expr, schema: &Arc<DFSchem
         }
         Outcome::Violation(mut v) => {
             v["family"] = json!(format!("physical/{}", p.family));
-            v["signature"] = json!(format!("physical: {}", signature(Some(&xo), Some(&xs), &phys.to_string(), &psimp.to_string())));
+            let nvb = null_mismatch(&v);
+            v["signature"] = json!(format!("physical: {}", signature(Some(&xo), Some(&xs), &phys.to_string(), &psimp.to_string(), nvb)));
             t.violations.push(v);
         }
     }
@@ -538,7 +641,15 @@ pub fn run(thorough: bool, seed: u64, threads: usize) -> Value {
                     let mut duo = Duo::new(timeout_ms, true);
                     let mut t = Tally::new();
                     for p in chunk {
-                        run_one(&mut duo, p, &mut t);
+                        let t1 = std::time::Instant::now();
+                        let r = std::panic::catch_unwind(std::panic::AssertUnwindSafe(|| run_one(&mut duo, p, &mut t)));
+                        if r.is_err() {
+                            // a panic inside DataFusion (e.g. Display of an extreme Date64 literal) or the driver:
+                            // the solver session may be mid-query, start a fresh one
+                            *t.unsupported.entry("panic while processing the program (datafusion Display/eval or driver)".into()).or_insert(0) += 1;
+                            duo = Duo::new(timeout_ms, true);
+                        }
+                        *t.fam_secs.entry(p.family.clone()).or_insert(0.0) += t1.elapsed().as_secs_f64();
                     }
                     (t, duo.queries(), duo.secs(), duo.errors(), duo.disagreements)
                 })
@@ -557,7 +668,7 @@ pub fn run(thorough: bool, seed: u64, threads: usize) -> Value {
         "programs": total.programs, "changed": total.changed, "equivalent": total.equivalent, "trivial": total.trivial,
         "unchanged": total.unchanged, "ill_typed": total.ill_typed, "simplifier_errors": total.simplifier_errors,
         "unsupported": total.unsupported, "inconclusive": total.inconclusive, "violations": total.violations,
-        "samples": total.samples, "families": total.families.iter().map(|(k, v)| (k.clone(), json!({"programs": v.0, "proved_equivalent": v.1}))).collect::<BTreeMap<_, _>>(),
+        "samples": total.samples, "families": total.families.iter().map(|(k, v)| (k.clone(), json!({"programs": v.0, "proved_equivalent": v.1, "cpu_s": total.fam_secs.get(k).copied().unwrap_or(0.0)}))).collect::<BTreeMap<_, _>>(),
         "distinct_rewrites": total.distinct_rewrites.len(),
         "physical": {"programs": total.phys_programs, "changed": total.phys_changed, "equivalent": total.phys_equivalent},
         "grid": {"templates": grid.templates, "points": grid.points, "mismatches": grid.mismatches, "unsupported": grid.unsupported},
